@@ -32,7 +32,8 @@ package http2
 // Oracle (the reference golang.org/x/net/http2 Framer with its hpack decoder,
 // fed with the recorded bytes in wire order):
 //   - frame-wise: nothing but CONTINUATION frames of the same stream between a
-//     HEADERS frame without END_HEADERS and the frame with END_HEADERS (RFC 7540 4.3);
+//     HEADERS frame without END_HEADERS and the frame with END_HEADERS (RFC 7540 4.3;
+//     the key names the kind of the intruding frame);
 //   - every HEADERS(+CONTINUATION) group decodes without error;
 //   - the decoded fields of each group equal, as a multiset, the list MOSN was
 //     asked to send for that stream (MOSN enumerates http.Header maps, so the
@@ -253,9 +254,13 @@ func c18HDecode(wire []byte) (groups []c18HGroup, shape []string, kind, detail s
 		}
 		switch {
 		case open != 0 && (typ != 9 || sid != open):
-			kind, detail = "interleaved", fmt.Sprintf("frame type %d of stream %d inside the header block of stream %d", typ, sid, open)
+			name := map[byte]string{0: "DATA", 1: "HEADERS", 9: "CONTINUATION"}[typ]
+			if name == "" {
+				name = fmt.Sprintf("type-%d", typ)
+			}
+			kind, detail = "interleaved:a "+name+" frame of another stream is written between a HEADERS frame and its CONTINUATION", fmt.Sprintf("frame type %d of stream %d inside the header block of stream %d", typ, sid, open)
 		case open == 0 && typ == 9:
-			kind, detail = "interleaved", fmt.Sprintf("CONTINUATION of stream %d without an open header block", sid)
+			kind, detail = "interleaved:a CONTINUATION frame without an open header block is written", fmt.Sprintf("stream %d", sid)
 		}
 		if (typ == 1 || typ == 9) && flags&0x4 == 0 {
 			open = sid
@@ -264,7 +269,7 @@ func c18HDecode(wire []byte) (groups []c18HGroup, shape []string, kind, detail s
 		}
 	})
 	if kind == "" && open != 0 {
-		kind, detail = "interleaved", fmt.Sprintf("header block of stream %d never ended", open)
+		kind, detail = "interleaved:a header block is never ended", fmt.Sprintf("stream %d", open)
 	}
 	if kind != "" {
 		return
@@ -344,11 +349,11 @@ func c18HExplore(p *vreport.Part, c c18HCase, replay bool) bool {
 		if p.WantSample() {
 			p.Sample(map[string]interface{}{"case": cc, "frames_type/stream/flags": shape, "header_blocks_in_wire_order_by_stream": order})
 		}
-		switch kind {
-		case "interleaved":
-			p.Violation(pre+"header blocks of two streams are interleaved frame-wise (RFC 7540 4.3)", where+": "+detail+"; frames="+strings.Join(shape, ","), cc)
+		switch {
+		case strings.HasPrefix(kind, "interleaved:"):
+			p.Violation(pre+strings.TrimPrefix(kind, "interleaved:")+" (RFC 7540 4.3)", where+": "+detail+"; frames="+strings.Join(shape, ","), cc)
 			return
-		case "decode":
+		case kind == "decode":
 			p.Violation(pre+"the reference decoder cannot decode the header blocks in wire order", where+": "+detail+"; frames="+strings.Join(shape, ","), cc)
 			return
 		}
@@ -423,13 +428,12 @@ func c18HCases() []c18HCase {
 		for _, tr := range []bool{false, true} {
 			for _, big := range []int{-1, 0, 1} {
 				b := vreport.Pick(2, 3)
-				if tr && !vreport.Thorough() && big == 0 {
-					continue // quick: trailers with the big block on the older stream only in thorough
-				}
 				cases = append(cases, c18HCase{Side: side, Threads: 2, Big: big, Trailers: tr, Bound: b})
 			}
 		}
-		if vreport.Thorough() {
+		if !vreport.Thorough() {
+			cases = append(cases, c18HCase{Side: side, Threads: 3, Big: 1, Trailers: false, Bound: 1})
+		} else {
 			for _, tr := range []bool{false, true} {
 				for _, big := range []int{-1, 1, 2} {
 					b := 3
@@ -488,6 +492,6 @@ func TestVerifC18HpackOrder(t *testing.T) {
 	p.Note("cases", n)
 	p.Note("cases_all_shards", len(cases))
 	p.End(complete, "one MServerConn (threads call MStream.SendResponse for different open streams) and one MClientConn (threads call MClientStream.RoundTrip for different requests) on a fake connection recording Write-call order; header lists: repeated field x-common (inserted by the first block, indexed by the later ones), per-stream fields x-s<i>, explicit content-type/date (server) or user-agent (client), optionally a 40000-byte value on one stream (HEADERS+CONTINUATION), optionally a 3-byte body and trailers (x-common-trailer + x-t<i>: a second block per stream); a final sequential block on a fresh stream refers to every earlier insertion; "+
-		map[bool]string{false: "quick: 2 threads, CONTINUATION on none / the older / the younger stream, with and without trailers, <=2 preemptions", true: "thorough: 2 threads with <=3 preemptions; 3 threads with <=3 preemptions (headers only) / <=2 (with trailers), CONTINUATION on none / second / third stream"}[vreport.Thorough()],
+		map[bool]string{false: "quick: 2 threads, CONTINUATION on none / the older / the younger stream, with and without trailers, <=2 preemptions; 3 threads (headers only, CONTINUATION on the second) with <=1 preemption", true: "thorough: 2 threads with <=3 preemptions; 3 threads with <=3 preemptions (headers only) / <=2 (with trailers), CONTINUATION on none / second / third stream"}[vreport.Thorough()],
 		"every case x every schedule within the preemption bound on the instrumented package; evaluations = executions; distinct = (case, sequence of frame type/stream/flags on the wire); oracle = the recorded bytes in wire order through the x/net Framer + hpack decoder: no foreign frame inside a header block, every block decodes, decoded multiset of fields == list asked for (content-length only where asked), client stream ids increasing, final sequential block decodes")
 }
